@@ -14,6 +14,10 @@ CLAIMED = {
    text="every conversion among the 12 arithmetic types that involves a floating type, + - * / and the six comparisons, negation and truth tests on float/double/long double, for ALL operand values incl. NaN, infinities, signed zeros, denormals: z3 (FP theory, x87 modelled as FP(15,64) with the control word the code loads) proves the emitted SSE/x87 sequences yield the C11/IEEE result; floating constants for a boundary list plus solver-found double-rounding witnesses",
    note="trusts z3's FP theory, the asm executor (validated against the CPU each run); NaN payloads unspecified; literal text->binary (strtold) not encoded beyond the listed spellings",
    technique="SMT (z3 floating-point + bit-vectors) over symbolic execution of the emitted SSE/x87 code"),
+ "C20": dict(engine=E2, level="model_checking",
+   text="for every statement/expression form x 11 result types (incl. long double and four struct shapes): the emitted code is executed symbolically between two marker calls and z3 decides that the stack pointer and the x87 register-stack depth are identical before and after, for single statements and for one iteration of for/while/do bodies and for-increments (an inductive step); value-producing forms are checked by using the value; x87 over/underflow is a violation",
+   note="trusts z3 and the asm executor; external callees assumed psABI-conforming; alloca/VLA exempt; asm statements outside",
+   technique="SMT over symbolic execution of the emitted code, stack-pointer and x87-depth invariants between marker calls"),
  "C11": dict(engine=E1, level="model_checking",
    text="bounded symbolic checking (cbmc) of the real unicode.c/tokenize.c literal kernels over all code points / all short buffers",
    note="trusts cbmc 6.11 and its C front end; bounds listed in evidence",
